@@ -11,6 +11,7 @@ type scenario struct {
 	powers []uint
 	byz, R int
 	script []string
+	kT     int // thorough tier: base search depth from this prefix if deeper than the catalogue's default (0 = default)
 	expect func(c *cfg, g *gstate) string
 }
 
@@ -101,5 +102,28 @@ func scenarios() []scenario {
 			return ""
 		},
 	})
+	// S6 (mirror of S1): ONE validator (0) sees the V0 polka of round 0, locks V0@0 and precommits it, and holds one more
+	// precommit for V0 from the Byzantine validator (2 of 4, below the quorum); the other two correct validators miss the
+	// polka and precommit nil (t never got the proposal and prevoted nil after its propose timeout); nobody decides,
+	// everybody moves on to round 1, whose proposer 1 is correct and not locked. From here the network can legitimately
+	// decide V1, so everything validator 0 still does with what it received in round 0 is safety-critical: old-round
+	// votes arriving late, arriving AGAIN (deviation R) or being resent. Two rounds only; the thorough tier goes one
+	// deviation deeper than with the three-round prefixes (carrying V1 through round 1 without validator 0 takes the
+	// Byzantine validator two deviations).
+	for _, byz := range []int{2, 3} {
+		t := 5 - byz
+		out = append(out, scenario{
+			name: fmt.Sprintf("S6 one-locked-V0@0-with-byz-precommit-two-unlocked-all-in-round-1 byz=%d R=1", byz), powers: eq, byz: byz, R: 1, kT: 3,
+			script: []string{fmt.Sprintf("W P0.0:V0/-1>%d", t), fmt.Sprintf("B v0.%d:V0>0", byz), fmt.Sprintf("B c0.%d:V0>0", byz), "until:round>=1"},
+			expect: func(c *cfg, g *gstate) string {
+				a, u1, u2 := sumOf(c, g, 0), sumOf(c, g, 1), sumOf(c, g, t)
+				if a.lockedVal != 0 || a.lockedRound != 0 || a.round != 1 || u1.lockedRound != -1 || u2.lockedRound != -1 || u1.round != 1 || u2.round != 1 ||
+					g.nd[c.slot[0]].decided || g.nd[c.slot[1]].decided || g.nd[c.slot[t]].decided {
+					return fmt.Sprintf("%+v %+v %+v", a, u1, u2)
+				}
+				return ""
+			},
+		})
+	}
 	return out
 }
